@@ -15,6 +15,11 @@ GENERIC_ITEMS = ['Inner', 'G1', 'G2', 'G3', 'G4', 'G5', 'G6', 'G7', 'G8', 'G9', 
                  'P8', 'P9', 'R1', 'R2', 'E5']
 
 
+# items whose TypeScript name is a solver-chosen string (R*, E*) other than the historical three, or whose declaration is replaced
+# wholesale by `#[ts(type = ..)]` / `#[ts(as = ..)]` on the container (nothing generic is declared)
+NOT_C07 = {'R3', 'R4', 'P11', 'S8'}
+
+
 def type_text(name, item):
     ps = [p[1] for p in item['params'] if p[0] != 'lifetime']
     return name + ('<' + ', '.join(ps) + '>' if ps else '')
@@ -221,7 +226,8 @@ def main():
                                'statement about all type arguments; checked against the parametricity / scoping / expansion equations')
     tyres.setup()
     quick = TIER == 'quick'
-    items = [n for n in GENERIC_ITEMS if n in G['corpus']]
+    # every generic corpus item (the explicit list above is the historical core; items added later are picked up automatically)
+    items = [n for n in G['corpus'] if (n in GENERIC_ITEMS or G['corpus'][n]['generics']) and n not in NOT_C07]
     rep.functions = [{'corpus_item': G['corpus'][n]['src'], 'methods': sorted(G['corpus'][n]['methods']),
                       'dummy_parameter_impls': {p: sorted(v) for p, v in G['corpus'][n]['dummies'].items()}} for n in items]
     rep.configs = ['ts-rs + ts-rs-macros: default features (the real derive expands the corpus inside rustc; its MIR is dumped)']
